@@ -190,7 +190,7 @@ Proof.
   { intros r' Heq. inversion Heq; subst. split; [constructor|]. split; [constructor|]. split.
     - intros ->. auto.
     - intros ->. left. split; [reflexivity|]. split; [apply stmts_at_nil | reflexivity]. }
-  destruct a as [m withctx | | | | |].
+  destruct a as [m withctx | | | | | |].
   - destruct (sctxapi sc && withctx && canc); [exact (Hsil _ H)|].
     destruct done; [exact (Hsil _ H)|].
     destruct (do_stmt t (sconn sc) k m (sctxapi sc && withctx) (sdl sc) orc) as [[[r0 l0] o1] c0] eqn:E.
@@ -208,6 +208,7 @@ Proof.
   - inversion H; subst. split; [constructor|]. split; [constructor|]. split.
     + intros ->. auto.
     + intros ->. left. split; [reflexivity|]. split; [apply stmts_at_nil | reflexivity].
+  - exact (Hsil _ H).
   - exact (Hsil _ H).
 Qed.
 
